@@ -631,6 +631,50 @@ def r_lu_checked(rep, f):
             erra = [a for a in par["arms"] if (a["pat"].get("def") or a["pat"].get("ctor_of") or "").endswith("Err")]
             ok = bool(erra) and diverges_block(erra[0]["body"])
             why = "the Err arm leaves the iteration"
+        if not ok:
+            # the outcome may reach the test through `||` / `&&`, negations, blocks and named booleans
+            # (`let failed = { n += 1; lu(..).is_err() } || { n += 1; luc(..).is_err() }; if failed { ..; continue }`):
+            # the test is evaluated in three-valued logic with THIS factorisation failed and everything else unknown
+            body_ = b["body"]
+
+            def tv(e, depth=0):
+                if e is None or depth > 12:
+                    return None
+                k_ = e.get("k")
+                if k_ in ("DropTemps", "Paren"):
+                    return tv(e["e"], depth + 1)
+                if k_ == "Block":
+                    return tv(e.get("tail") if e.get("tail") is not None else e.get("expr"), depth + 1)
+                if k_ == "MethodCall" and e.get("name") in ("is_err", "is_ok") and not e["args"]:
+                    r_ = e["recv"]
+                    while r_.get("k") in ("DropTemps", "Paren"):
+                        r_ = r_["e"]
+                    if r_ is c:
+                        return e["name"] == "is_err"
+                    return None
+                if k_ == "Unary" and e.get("op") == "Not":
+                    v_ = tv(e["e"], depth + 1)
+                    return None if v_ is None else not v_
+                if k_ == "Binary" and e["op"] in ("Or", "And"):
+                    l_, r_ = tv(e["l"], depth + 1), tv(e["r"], depth + 1)
+                    if e["op"] == "Or":
+                        return True if (l_ is True or r_ is True) else (False if (l_ is False and r_ is False) else None)
+                    return False if (l_ is False or r_ is False) else (True if (l_ is True and r_ is True) else None)
+                if k_ == "Path" and e.get("res") == "local" and e.get("ty") == "bool":
+                    lets_ = tast.find(body_, lambda z: z.get("k") == "Let" and z["pat"].get("k") == "PBind" and z["pat"].get("id") == e.get("id") and z.get("init") is not None)
+                    asg_ = tast.find(body_, lambda z: z.get("k") in ("Assign", "AssignOp") and z["l"].get("k") == "Path" and z["l"].get("id") == e.get("id"))
+                    if len(lets_) == 1 and not asg_:
+                        return tv(lets_[0]["init"], depth + 1)
+                return None
+            for i_ in tast.find(body_, lambda z: z.get("k") == "If" and z["cond"].get("k") != "LetExpr"):
+                v_ = tv(i_["cond"])
+                if v_ is None:
+                    continue
+                errb = i_["then"] if v_ else i_.get("else")
+                if diverges_block(errb):
+                    ok = True
+                    why = "the failure of this factorisation makes `%s` %s, and that branch leaves the iteration" % (tast.render(i_["cond"])[:40], "true" if v_ else "false")
+                    break
         if ok:
             rep.ok("R-LU-CHECKED", key, why)
         else:
@@ -1188,3 +1232,280 @@ def r_lu_interleave(rep, f):
                           % bad[1], bad[0].get("sp"))
         else:
             rep.ok("R-LU-INTERLEAVE", key, "deferred interchanges in %s; %d pivot read(s) each inside the elimination loop, before the column update" % (dec.split("::")[-1], n_ok))
+
+
+# ------------------------------------------------------------------------------------------ R-LU-SOLVE (semantic)
+class _Paths:
+    """depth-first enumeration of the outcomes of the ordering tests an evaluation meets"""
+
+    def __init__(self):
+        self.prefix = []
+        self.taken = []
+
+    def start(self):
+        self.taken = []
+
+    def ask(self, op, l, r):
+        i = len(self.taken)
+        v = self.prefix[i] if i < len(self.prefix) else False
+        self.taken.append(v)
+        return v
+
+    def advance(self):
+        t = list(self.taken)
+        while t and t[-1]:
+            t.pop()
+        if not t:
+            return False
+        t[-1] = True
+        self.prefix = t
+        return True
+
+
+def _frac_eval(p, env, depth=0):
+    """exact value of a polynomial whose atoms are symbols (env) or inv[...] / abs[...] of such polynomials"""
+    from fractions import Fraction
+    tot = Fraction(0)
+    for mono, c in p.t.items():
+        term = Fraction(c)
+        for a, e in mono:
+            if a in env:
+                v = env[a]
+            else:
+                d = DEFS.get(a)
+                if d is None or depth > 40:
+                    raise KeyError(a)
+                if d[0] == "inv":
+                    v = 1 / _frac_eval(d[1][0], env, depth + 1)
+                elif d[0] == "abs":
+                    v = abs(_frac_eval(d[1][0], env, depth + 1))
+                elif d[0] == "neg":
+                    v = -_frac_eval(d[1][0], env, depth + 1)
+                else:
+                    raise KeyError(a)
+            term *= v ** e
+        tot += term
+    return tot
+
+
+def r_lu_solve(rep, f, thorough=False):
+    """factorise-then-solve returns the solution of the system: for every size n <= 3, every pattern of exactly-zero
+    entries that is enumerated, and every outcome of the ordering tests the code makes (the pivot search; enumerated, not
+    sampled), `lu_decomp` + `lin_solve` are evaluated exactly on a matrix and a right-hand side of symbols, and
+    A*x - b == 0 is decided as an identity of rational functions in those symbols (exact evaluation at random rational points:
+    a non-zero rational function of this size vanishes there with probability < 1e-9).  The same for the complex pair with
+    (re, im) symbols, sizes n <= 2.  Runs in which the code reports a singular matrix are skipped (nothing is solved)."""
+    import random
+    from fractions import Fraction
+    from cx import CxUnknown
+    from cxs import CxS, CxPanic, deepv, dderef
+    import matx
+    key0 = "R-LU-SOLVE"
+    rng = random.Random(20261004)
+
+    def identity_zero(polys, names):
+        for _ in range(2):
+            env = {nm: Fraction(rng.randint(-10 ** 6, 10 ** 6) * 2 + 1, rng.randint(1, 10 ** 3) * 2 + 1) for nm in names}
+            for p in polys:
+                try:
+                    if _frac_eval(p, env) != 0:
+                        return False
+                except ZeroDivisionError:
+                    return None
+        return True
+
+    class Cx(CxS):
+        lenient_if = True
+
+    def run_real(n, zeros):
+        cxm = matx.Ctx(f)
+        names = ["a%d" % i for i in range(n * n)] + ["b%d" % i for i in range(n)]
+        paths = _Paths()
+        n_paths = n_solved = 0
+        while True:
+            A = cxm.mk(("F",), n, "a")
+            for z in zeros:
+                A["data"][z] = Poly()
+            A0 = cxm.dense(deepv(A), n)
+            b = [Poly.atom("b%d" % i) for i in range(n)]
+            b0 = list(b)
+            ip = [0] * n
+            paths.start()
+            c = Cx(f)
+            c.oracle = paths.ask
+            try:
+                r = c.call_fn(LU, [A, ip])
+                okv = isinstance(r, dict) and (r.get("__variant") or "").endswith("Ok")
+                if okv:
+                    c2 = Cx(f)
+                    c2.oracle = paths.ask
+                    c2.call_fn(SOL, [A, b, ip])
+                    res = []
+                    for i in range(n):
+                        acc = Poly()
+                        for j in range(n):
+                            acc = acc + A0[i][j] * dderef(b[j])
+                        res.append(acc - b0[i])
+                    z = identity_zero(res, names)
+                    n_solved += 1
+                    if z is False:
+                        return ("bad", "n = %d, zero entries %s, ordering outcomes %s: A*x - b is not zero for the x returned" % (n, sorted(zeros), paths.taken), n_paths, n_solved)
+            except CxPanic as ex:
+                return ("bad", "n = %d, zero entries %s: panic (%s)" % (n, sorted(zeros), ex), n_paths, n_solved)
+            except CxUnknown as ex:
+                return ("unknown", "n = %d: %s" % (n, str(ex)[:120]), n_paths, n_solved)
+            n_paths += 1
+            if not paths.advance() or n_paths > 64:
+                break
+        return ("ok", None, n_paths, n_solved)
+
+    def run_complex(n, zeros):
+        cxm = matx.Ctx(f)
+        names = ["r%d" % i for i in range(n * n)] + ["i%d" % i for i in range(n * n)] + ["p%d" % i for i in range(n)] + ["q%d" % i for i in range(n)]
+        paths = _Paths()
+        n_paths = n_solved = 0
+        while True:
+            AR = cxm.mk(("F",), n, "r")
+            AI = cxm.mk(("F",), n, "i")
+            for which, z in zeros:
+                (AR if which == 0 else AI)["data"][z] = Poly()
+            R0, I0 = cxm.dense(deepv(AR), n), cxm.dense(deepv(AI), n)
+            br = [Poly.atom("p%d" % i) for i in range(n)]
+            bi = [Poly.atom("q%d" % i) for i in range(n)]
+            br0, bi0 = list(br), list(bi)
+            ip = [0] * n
+            paths.start()
+            c = Cx(f)
+            c.oracle = paths.ask
+            try:
+                r = c.call_fn(LUC, [AR, AI, ip])
+                if isinstance(r, dict) and (r.get("__variant") or "").endswith("Ok"):
+                    c2 = Cx(f)
+                    c2.oracle = paths.ask
+                    c2.call_fn(SOLC, [AR, AI, br, bi, ip])
+                    res = []
+                    for i in range(n):
+                        re_, im_ = Poly(), Poly()
+                        for j in range(n):
+                            xr, xi = dderef(br[j]), dderef(bi[j])
+                            re_ = re_ + R0[i][j] * xr - I0[i][j] * xi
+                            im_ = im_ + R0[i][j] * xi + I0[i][j] * xr
+                        res += [re_ - br0[i], im_ - bi0[i]]
+                    z = identity_zero(res, names)
+                    n_solved += 1
+                    if z is False:
+                        return ("bad", "n = %d, zero parts %s, ordering outcomes %s: (Ar + i Ai)*x - b is not zero for the x returned" % (n, sorted(zeros), paths.taken), n_paths, n_solved)
+            except CxPanic as ex:
+                return ("bad", "n = %d, zero parts %s: panic (%s)" % (n, sorted(zeros), ex), n_paths, n_solved)
+            except CxUnknown as ex:
+                return ("unknown", "n = %d: %s" % (n, str(ex)[:120]), n_paths, n_solved)
+            n_paths += 1
+            if not paths.advance() or n_paths > 64:
+                break
+        return ("ok", None, n_paths, n_solved)
+    import itertools
+    for label, runner, cases in (
+            ("lu_decomp+lin_solve", run_real,
+             [(n, frozenset(z)) for n in (1, 2, 3) for k in range(0, (n * n if (n < 3 or thorough) else 2) + 1) for z in itertools.combinations(range(n * n), k)]),
+            ("lu_decomp_complex+lin_solve_complex", run_complex,
+             [(n, frozenset(z)) for n in (1, 2) for k in range(0, (2 * n * n if (n < 2 or thorough) else 2) + 1)
+              for z in itertools.combinations([(w, e) for w in (0, 1) for e in range(n * n)], k)])):
+        key = "%s:%s" % (key0, label)
+        tot_paths = tot_solved = n_cases = 0
+        bad = unknown = None
+        for n, zeros in cases:
+            st, msg, npth, nsol = runner(n, zeros)
+            n_cases += 1
+            tot_paths += npth
+            tot_solved += nsol
+            if st == "bad" and bad is None:
+                bad = msg
+                break
+            if st == "unknown" and unknown is None:
+                unknown = msg
+        if bad:
+            rep.violation(key0, key, "%s: the vector returned does not solve the system (%s)" % (label, bad), None)
+        elif unknown and tot_solved == 0:
+            rep.inconc(key0, key, "not evaluated: %s" % unknown)
+        elif tot_solved < 10:
+            rep.inconc(key0, key, "only %d solved systems verified" % tot_solved)
+        else:
+            rep.ok(key0, key, "%d zero patterns, %d ordering-outcome paths, %d solved systems: A*x = b as an identity in the symbols%s" % (n_cases, tot_paths, tot_solved, ("; %s" % unknown) if unknown else ""))
+
+
+def r_pivot_semantic(rep, f):
+    """the pivot search picks the row of largest magnitude, the first one on a tie: the factorisations are evaluated exactly
+    on matrices whose k-th column carries every ordering (ties included) of magnitudes below the diagonal, both signs - the
+    search touches its inputs only through abs and comparisons, so the orderings are a complete case analysis - and the
+    recorded interchange ip[k] must name that row.  Columns before k are unit columns, so the elimination leaves column k as given.
+    Returns {routine: True (decided ok) | False (violation reported) | None (not evaluated)}."""
+    import itertools
+    from cx import CxUnknown
+    from cxs import CxS, CxPanic
+    import matx
+    out = {}
+    for label, fn_, cplx in (("lu_decomp", LU, False), ("lu_decomp_complex", LUC, True)):
+        key = "R-PIVOT-ARGMAX:%s:semantic" % label
+        bad = None
+        n_cases = 0
+        try:
+            for n in (2, 3):
+                for k in range(n - 1):
+                    rows = list(range(k, n))
+                    mags = set(itertools.product((1, 2, 3), repeat=len(rows)))
+                    for mg in sorted(mags):
+                        for sgn in ((1,) * len(rows), tuple(-1 if i % 2 == 0 else 1 for i in range(len(rows)))):
+                            for part in ((0, 1) if cplx else (0,)):      # complex: the magnitude sits in the real or in the imaginary part
+                                cxm = matx.Ctx(f)
+                                A = cxm.mk(("F",), n, "a")
+                                B = cxm.mk(("F",), n, "b") if cplx else None
+                                for M_ in (A, B):
+                                    if M_ is not None:
+                                        M_["data"] = [Poly() for _ in M_["data"]]
+                                for j in range(n):
+                                    A["data"][j * n + j] = Poly.const(7)       # unit-like columns elsewhere (non-singular)
+                                for i_, r_ in enumerate(rows):
+                                    tgt = (B if (cplx and part == 1) else A)
+                                    other = (A if (cplx and part == 1) else B)
+                                    tgt["data"][r_ * n + k] = Poly.const(mg[i_] * sgn[i_])
+                                    if other is not None:
+                                        other["data"][r_ * n + k] = Poly()
+                                ip = [0] * n
+                                c = CxS(f)
+                                r = c.call_fn(fn_, [A, B, ip] if cplx else [A, ip])
+                                n_cases += 1
+                                if not (isinstance(r, dict) and (r.get("__variant") or "").endswith("Ok")):
+                                    continue
+                                want = rows[max(range(len(rows)), key=lambda i_: (mg[i_], -i_))]
+                                if ip[k] != want and bad is None:
+                                    bad = "n = %d, step %d, column magnitudes %s (rows %d..%d)%s: row %d chosen, row %d holds the largest entry" % (
+                                        n, k, [m_ * s_ for m_, s_ in zip(mg, sgn)], k, n - 1, " in the imaginary part" if part else "", ip[k], want)
+        except (CxUnknown, CxPanic) as ex:
+            rep.note("%s not evaluated: %s" % (key, str(ex)[:160]))
+            out[label] = None
+            continue
+        if bad:
+            rep.violation("R-PIVOT-ARGMAX", key, "the pivot search does not select the entry of largest magnitude (%s): elimination with a small pivot amplifies rounding errors without bound" % bad, f.bodies[fn_].get("sp"))
+            out[label] = False
+        else:
+            rep.ok("R-PIVOT-ARGMAX", key, "ip[k] names the first row of largest magnitude in %d evaluated orderings (ties, both signs%s)" % (n_cases, ", real and imaginary parts" if cplx else ""))
+            out[label] = True
+    return out
+
+
+class SoftRep:
+    """forwards to a Report; an INCONCLUSIVE of a shape-reading rule becomes a note when the same obligation was decided by a
+    semantic rule in this run (`covered` maps a key prefix to the reason)"""
+
+    def __init__(self, rep, covered):
+        self._rep, self._covered = rep, covered
+
+    def __getattr__(self, name):
+        return getattr(self._rep, name)
+
+    def inconc(self, rule, key, msg, span=None):
+        for pref, why in self._covered.items():
+            if key.startswith(pref):
+                self._rep.note("%s %s - %s" % (key, msg[:200], why))
+                return
+        self._rep.inconc(rule, key, msg, span)
